@@ -72,7 +72,7 @@ ASSUMPTIONS = [
 ]
 BOUND = {
     'quick': '7 ratios x 2 senses x 8 slit sets x {deg,rad} x 4 frequency-unit pairs at 14 Hz x 3 beam positions x 3 phases x '
-    '(direct + npulses 1,2); int64 family; full ratio accept/reject family; full overlap family',
+    '(direct + npulses 1,2,3); int64 family; full ratio accept/reject family; full overlap family',
     'thorough': '7 ratios x 2 senses x 9 slit sets x {deg,rad,mixed} x 6 frequency-unit pairs x {14,10} Hz x 6 beam positions x '
     '5 phases x (direct + npulses 1..4); int64 family; ratio family; overlap family',
 }
@@ -103,7 +103,7 @@ SLITSETS = {
 QUICK_SLITSETS = ['one', 'two_at_tdc', 'span_tdc', 'neg_begin', 'narrow', 'wide', 'six_unsorted', 'span_tdc_plus']
 BEAMS = {'quick': [0, 37, 400], 'thorough': [0, 37, 180, 359, -40, 400]}
 PHASES = {'quick': [0, 725, -20], 'thorough': [0, 15, 350, 725, -20]}
-NPULSES = {'quick': [1, 2], 'thorough': [1, 2, 3, 4]}
+NPULSES = {'quick': [1, 2, 3], 'thorough': [1, 2, 3, 4]}
 AMODES = {'quick': ['deg', 'rad'], 'thorough': ['deg', 'rad', 'mixed']}
 FUNITS = {
     'quick': [('Hz', 'Hz'), ('kHz', 'kHz'), ('1/min', '1/min'), ('kHz', 'Hz')],
